@@ -2,6 +2,7 @@
     [logout_table] is the complete decision table of logoutHandleFunc, proved by symbolic execution of the chain go2v
     extracts from logout.go for all requests, metadata and instants; the statements below are read off it. *)
 From Saml Require Import Base.Bytes Idp.FactTypes Gen.Facts Idp.Sso Idp.Logout Idp.Deliver Proofs.LogoutProofs.
+From Saml Require Import Codec.Base64 Core.WireCodec Core.DecodeVia.
 From Saml Require Import Idp.BuilderTypes Idp.Builder Idp.BuiltDoc.
 From Saml Require Import Xml.SchemaTypes Xml.Schema Gen.Schema Xml.SamlSpec.
 
@@ -108,6 +109,19 @@ Theorem C13_built_response : forall reqid url issuer reason message id1 rest iss
      at_ d ["Status"; "StatusCode"; "Value"]%string = Some (DStr (b "urn:oasis:names:tc:SAML:2.0:status:Success"))).
 Proof. exact logout_response_fields. Qed.
 
+(** decoding opened up one level (DecodeLogoutRequest = InflateAndDecode + parser, C06_decode_from_source): a request
+    that gets Success has an empty or the DEFLATE SAMLEncoding and a payload that inflates within the cap; an unknown
+    SAMLEncoding or an oversized payload gets RequestDenied *)
+Theorem C13_codec : forall e_form inflate cap parse lookup instant_of now,
+  valid_logout e_form (decode_via lreq inflate cap parse) lookup instant_of now ->
+  exists f raw d q, e_form = Some f /\ (lf_enc f = [] \/ lf_enc f = c_EncodingDeflate) /\ b64_decode (lf_req f) = Some raw /\ parse d = Some q /\
+    ((lf_enc f = [] /\ d = raw) \/ (lf_enc f = c_EncodingDeflate /\ inflate raw = Some d /\ (Z.of_nat (length d) <= cap)%Z)).
+Proof.
+  intros e_form inflate cap parse lookup instant_of now (f & q & i & sp & Ef & Ed & _).
+  destruct (decode_via_some lreq inflate cap parse _ _ _ Ed) as (He & raw & d & Hb & Hp & Hd).
+  exists f, raw, d, q. auto.
+Qed.
+
 Print Assumptions C13_success_iff.
 Print Assumptions C13_echo.
 Print Assumptions C13_target.
@@ -115,3 +129,4 @@ Print Assumptions C13_parameters_read.
 Print Assumptions C13_delivery_from_source.
 Print Assumptions C13_schema.
 Print Assumptions C13_built_response.
+Print Assumptions C13_codec.
